@@ -54,7 +54,7 @@ class Run:
         gen = os.path.join(COQ, "theories", "Gen")
         os.makedirs(gen, exist_ok=True)
         rc, out, err = sh([sys.executable, os.path.join(VERIF, "tools", "gen_kernels.py"), self.repo,
-                           os.path.join(gen, "Kernels.v")])
+                           os.path.join(gen, "Kernels.v"), os.path.join(gen, "Lz77Kernel.v")])
         if rc != 0:
             self.broken.append(("translator", "gen_kernels", err.strip()))
         rc, out, err = sh([sys.executable, os.path.join(VERIF, "tools", "gen_consts.py"), self.repo,
